@@ -104,6 +104,9 @@ def generate(rng, tier):
           "c": _side(r), "o": _side(r)}
     if sc["strategy"] == "lazy" and mode != "reverse_tls" and not sc["c"]["first"]:
         sc["c"]["first"] = _op(r, True)  # a lazy proxy connects upstream only once the inner layer sees client data
+    if mode != "reverse_tls" and not (sc["c"]["first"] or sc["c"]["ops"] or sc["o"]["first"] or sc["o"]["ops"]):
+        # the raw TCP inner layer only exists once next_layer has seen a first application byte
+        sc[r.choice(["c", "o"])]["first"] = _op(r, True)
     who = r.choice(["c", "o"])
     sc["close"] = {"who": who, "kind": r.choice(["notify", "notify", "fin", "notify_fin"]),
                    "tail": _op(r, True) if r.random() < 0.7 else None,
@@ -302,6 +305,13 @@ def _execute(sc):
                     f"a peer saw its inbound stream closed before anybody closed: c={C.end.events[-2:]} o={O.end.events[-2:]}")
             return
         if not (ok1 and ok2):
+            return
+        if mode != "reverse_tls" and C.pos == 0 and O.pos == 0:
+            # CONNECT / transparent: the inner protocol is chosen by next_layer on the first application byte.
+            # Nobody has sent one, so the layer below TLS is still the undecided NextLayer placeholder, not the raw
+            # TCP layer this check needs; what it does with a close is not this property's business.
+            log.append(("inner_layer_undecided",))
+            probe("inner_layer_undecided")
             return
         # ---- ending ---------------------------------------------------------------------------------
         A, B = (C, O) if close["who"] == "c" else (O, C)
